@@ -105,7 +105,7 @@ class Translator:
         if spec.attrs.get("extract_assign"): pyparams = declared
         if pyparams != declared:
             raise Unsupported(f"{spec.func}: parameters {pyparams} != expected {declared}")
-        if (fn.args.vararg or fn.args.kwarg or fn.args.kwonlyargs) and not spec.attrs.get("extract_assign"):
+        if (fn.args.vararg or fn.args.kwarg or fn.args.kwonlyargs) and not spec.attrs.get("extract_assign") and not spec.attrs.get("allow_kwargs"):
             raise Unsupported("varargs")
         self.owned = owned
         if spec.attrs.get("extract_assign"):
@@ -353,7 +353,38 @@ class Translator:
             env2 = dict(env); env2[var] = (var, tL[1]); env2[other] = (other, tM[1])
             elt = _Replace(subs[0], ast.Name(id=other, ctx=ast.Load())).visit(_clone(n.elt))
             body, tb = self.tr(elt, env2)
+            if isinstance(tb, tuple) and tb[0] in ("result", "option"):        # E itself may raise: the first failure is the failure of the comprehension
+                return (f"(obind (py_enum_zip (fun {var} {other} => {body}) {L} {M}) sequence)", RES(LIST(tb[1])))
             return (f"(py_enum_zip (fun {var} {other} => {body}) {L} {M})", RES(LIST(tb)))
+        # [E for i, (a, b) in enumerate(zip(L1, L2))] where the translated E does not depend on i (i only names the child)
+        if isinstance(g.iter, ast.Call) and ast.unparse(g.iter.func) == "enumerate" and len(g.iter.args) == 1 \
+                and isinstance(g.target, ast.Tuple) and len(g.target.elts) == 2 and isinstance(g.target.elts[0], ast.Name) \
+                and isinstance(g.target.elts[1], ast.Tuple) and len(g.target.elts[1].elts) == 2 and all(isinstance(e, ast.Name) for e in g.target.elts[1].elts) \
+                and isinstance(g.iter.args[0], ast.Call) and ast.unparse(g.iter.args[0].func) == "zip" and len(g.iter.args[0].args) == 2 and not g.iter.args[0].keywords:
+            z = g.iter.args[0]
+            (L1, t1), (L2, t2) = self.tr(z.args[0], env), self.tr(z.args[1], env)
+            if not all(isinstance(t, tuple) and t[0] == "list" for t in (t1, t2)): raise Unsupported("zip of non-lists")
+            i = g.target.elts[0].id; a, b = (e.id for e in g.target.elts[1].elts)
+            iv = self.gensym("unused_index")
+            env2 = dict(env); env2[i] = (iv, NAT); env2[a] = (a, t1[1]); env2[b] = (b, t2[1])
+            body, tb = self.tr(n.elt, env2)
+            if iv in body: raise Unsupported("enumerate(zip): the element depends on the index")
+            if isinstance(tb, tuple) and tb[0] in ("option", "result"): raise Unsupported("enumerate(zip): failing element")
+            return (f"(map (fun p_ => let '({a}, {b}) := p_ in {body}) (zip {L1} {L2}))", LIST(tb))
+        # [E for a, b in L], L a list of pairs ( `_` allowed )
+        if isinstance(g.target, ast.Tuple) and len(g.target.elts) == 2 and all(isinstance(e, ast.Name) for e in g.target.elts) \
+                and not (isinstance(g.iter, ast.Call) and ast.unparse(g.iter.func) in ("zip", "enumerate")):
+            L, tL = self.tr(g.iter, env)
+            if isinstance(tL, tuple) and tL and tL[0] == "fresh": tL = tL[1:]
+            if not (isinstance(tL, tuple) and tL[0] == "list" and isinstance(tL[1], tuple) and tL[1][0] == "tuple" and len(tL[1]) == 3):
+                raise Unsupported("pair comprehension over a non-list-of-pairs")
+            names = [e.id if e.id != "_" else self.gensym("w") for e in g.target.elts]
+            env2 = dict(env)
+            for e, nm, t in zip(g.target.elts, names, tL[1][1:]):
+                if e.id != "_": env2[e.id] = (nm, t)
+            body, tb = self.tr(n.elt, env2)
+            if isinstance(tb, tuple) and tb[0] in ("option", "result"): raise Unsupported("pair comprehension: failing element")
+            return (f"(map (fun p_ => let '({names[0]}, {names[1]}) := p_ in {body}) {L})", LIST(tb))
         if isinstance(g.target, ast.Tuple) and len(g.target.elts) == 2 and all(isinstance(e, ast.Name) for e in g.target.elts) \
                 and isinstance(g.iter, ast.Call) and ast.unparse(g.iter.func) == "zip" and len(g.iter.args) == 2 and not g.iter.keywords:
             (L1, t1), (L2, t2) = self.tr(g.iter.args[0], env), self.tr(g.iter.args[1], env)
@@ -371,6 +402,8 @@ class Translator:
             v = g.target.id if g.target.id != "_" else "i_"
             env2 = dict(env); env2[g.target.id] = (v, NAT)
             body, tb = self.tr(n.elt, env2)
+            if isinstance(tb, tuple) and tb[0] == "result":
+                return (f"(map_opt (fun {v} => {body}) (seq 0 {nn}))", RES(LIST(tb[1])))
             return (f"(map (fun {v} => {body}) (seq 0 {nn}))", LIST(tb))
         if isinstance(g.target, ast.Name):
             L, tL = self.tr(g.iter, env)
@@ -390,6 +423,15 @@ class Translator:
             if ty == LIST(BOOL) and t.startswith("(map "):
                 return ("(forallb " + t[len("(map "):], BOOL)
             raise Unsupported("all(...)")
+        if f == "np.any" and len(n.args) == 1 and not n.keywords and isinstance(n.args[0], ast.Call) and ast.unparse(n.args[0].func) == "np.array" \
+                and len(n.args[0].args) == 1 and not n.args[0].keywords and isinstance(n.args[0].args[0], ast.ListComp):
+            t, ty = self.tr(n.args[0].args[0], env)
+            if ty == LIST(BOOL): return (f"(existsb (fun b_ => b_) {t})", BOOL)
+            raise Unsupported("np.any(np.array(...)) of non-booleans")
+        if f in sp.attrs.get("kwcalls", {}) and not n.args:
+            kws = {k.arg: k.value for k in n.keywords}
+            if None in kws: raise Unsupported("**kwargs in constructor call")
+            return sp.attrs["kwcalls"][f](kws, lambda node: self.tr(node, env))
         if f == "range" and not n.keywords and (len(n.args) == 1 or (len(n.args) == 2 and ast.unparse(n.args[0]) == "0")):
             nn, tn = self.tr(n.args[-1], env); self.need(tn, NAT)
             return (f"(seq 0 {nn})", LIST(NAT))
@@ -537,6 +579,7 @@ class Translator:
         if isinstance(st, ast.Expr) and isinstance(st.value, ast.Call):
             f = ast.unparse(st.value.func)
             if f == "print": return self.tr_body(rest, env)                        # pure output
+            if " ".join(ast.unparse(st).split()) in sp.attrs.get("skip_stmts", ()): return self.tr_body(rest, env)   # e.g. super().__init__(**kwargs): pydantic's own construction
             tgt = dotted(st.value.func.value) if isinstance(st.value.func, ast.Attribute) else None
             meth = st.value.func.attr if isinstance(st.value.func, ast.Attribute) else None
             if tgt in env and meth in ("sort", "extend", "append", "reverse", "insert", "pop", "remove", "clear"):
